@@ -143,6 +143,30 @@ func (d *DHCPv6) Len() int {
 // SerializationBuffer, implementing gopacket.SerializableLayer.
 // See the docs for gopacket.SerializableLayer for more info.
 func (d *DHCPv6) SerializeTo(b gopacket.SerializeBuffer, opts gopacket.SerializeOptions) error {
+	relay := d.MsgType == DHCPv6MsgTypeRelayForward || d.MsgType == DHCPv6MsgTypeRelayReply
+	if relay {
+		if d.LinkAddr.To16() == nil {
+			return fmt.Errorf("DHCPv6 link address has invalid length %d", len(d.LinkAddr))
+		}
+		if d.PeerAddr.To16() == nil {
+			return fmt.Errorf("DHCPv6 peer address has invalid length %d", len(d.PeerAddr))
+		}
+	} else if len(d.TransactionID) != 3 {
+		return fmt.Errorf("DHCPv6 transaction ID has %d bytes, must have 3", len(d.TransactionID))
+	}
+	// An option takes the space its Length says; Data which is shorter is
+	// followed by zeroes, Data which is longer cannot be written.
+	for i := range d.Options {
+		o := &d.Options[i]
+		if opts.FixLengths {
+			if len(o.Data) > 65535 {
+				return fmt.Errorf("DHCPv6 option %d (%v) has %d bytes of data, at most 65535 fit", i, o.Code, len(o.Data))
+			}
+			o.Length = uint16(len(o.Data))
+		} else if len(o.Data) > int(o.Length) {
+			return fmt.Errorf("DHCPv6 option %d (%v) has length %d but %d bytes of data", i, o.Code, o.Length, len(o.Data))
+		}
+	}
 	plen := int(d.Len())
 
 	data, err := b.PrependBytes(plen)
@@ -152,7 +176,7 @@ func (d *DHCPv6) SerializeTo(b gopacket.SerializeBuffer, opts gopacket.Serialize
 
 	offset := 0
 	data[0] = byte(d.MsgType)
-	if d.MsgType == DHCPv6MsgTypeRelayForward || d.MsgType == DHCPv6MsgTypeRelayReply {
+	if relay {
 		data[1] = byte(d.HopCount)
 		copy(data[2:18], d.LinkAddr.To16())
 		copy(data[18:34], d.PeerAddr.To16())
@@ -166,6 +190,10 @@ func (d *DHCPv6) SerializeTo(b gopacket.SerializeBuffer, opts gopacket.Serialize
 		for _, o := range d.Options {
 			if err := o.encode(data[offset:], opts); err != nil {
 				return err
+			}
+			// the prepended bytes are not zeroed
+			for i := offset + 4 + len(o.Data); i < offset+4+int(o.Length); i++ {
+				data[i] = 0
 			}
 			offset += int(o.Length) + 4 // 2 from option code, 2 from option length
 		}
